@@ -4,3 +4,5 @@ set -e
 cd "$(dirname "$0")/.."
 sh tools/mkvenv.sh
 .venv/bin/python -c "import z3, sympy, numpy, darsia; print('setup ok: z3', z3.get_version_string())" 2>&1 | tail -1
+# lemma layer: Lean 4 + Mathlib (cached per file hash; the check C04.lemmas re-verifies when the cache is missing)
+.venv/bin/python -m vf.lean | grep -E '"ok"|"cached"' || true
